@@ -936,7 +936,15 @@ func c20BondEpisode(r *Rec, n int) {
 			if r.Rng.Intn(15) == 0 {
 				den = "ueth"
 			}
-			ep.bond(u, name, den, c20Amount(r, ep, name))
+			bname := name
+			if r.Rng.Intn(12) == 0 {
+				// another spelling of the dApp's name: there is no such dApp, nothing may be taken and nothing recorded
+				bname = strings.ToUpper(name[:1]) + name[1:]
+				if r.Rng.Intn(2) == 0 {
+					bname = strings.ToUpper(name)
+				}
+			}
+			ep.bond(u, bname, den, c20Amount(r, ep, name))
 		case x < 75:
 			var amt int64
 			if r.Rng.Intn(10) < 7 {
